@@ -5,8 +5,10 @@
   LocalNetwork codes it); `Gama/Gen/StatsGen.lean` is regenerated from the C++ text on every
   run and the `gen_*` theorems below say that the regenerated text *is* the reference model,
   so that a changed formula in the source breaks a proof here.  All other theorems are over ℝ
-  (`Scalar ℝ`, `Trig ℝ` of `Lemmas/StatsReal.lean`: `sqrt = Real.sqrt`,
+  (`Scalar ℝ`, `StatsTrig ℝ` of `Lemmas/StatsReal.lean`: `sqrt = Real.sqrt`,
   `atan2 y x = Complex.arg (x + y i)`), never about `Float`.
+  `Props/C09Solvers.lean` applies these formulas to what the solver models return (C01/C03/C20), to the LS
+  layer (dof = m − rank A, σ_apr scaling from LS9) and to C17's coefficient functions (half-widths).
 
   Names of quantities: `phi` = v'Pv, `dof` = degrees of freedom, `sapr` = a priori reference
   standard deviation σ_apr, `m` = the actual reference standard deviation m0,
@@ -65,7 +67,7 @@ theorem gen_studentizedResidual {K : Type} [Scalar K] (sres r : K) :
 theorem gen_obsControl {K : Type} [Scalar K] (qbb : K) :
     StatsGen.obsControl qbb = obsControl qbb := rfl
 
-theorem gen_stdErrorEllipse {K : Type} [Scalar K] [Trig K] (cyy cyx cxx m : K) :
+theorem gen_stdErrorEllipse {K : Type} [Scalar K] [StatsTrig K] (cyy cyx cxx m : K) :
     StatsGen.stdErrorEllipse cyy cyx cxx m = stdErrorEllipse cyy cyx cxx m := rfl
 
 theorem gen_covEntry {K : Type} [Scalar K] (m q : K) :
@@ -80,11 +82,30 @@ theorem gen_xmlRatio {K : Type} [Scalar K] (phi sapr : K) (dof : Int) :
 theorem gen_errObsAdj {K : Type} [Scalar K] (v qvv w : K) :
     StatsGen.errObsAdj v qvv w = errObsAdj v qvv w := rfl
 
+theorem gen_confHalfWidth {K : Type} [Scalar K] (sd kki : K) :
+    StatsGen.confHalfWidth sd kki = confHalfWidth sd kki := rfl
+
+/-- every place where the text writers use `kki = IS->conf_int_coef()` prints `<m>*kki` where `<m>` was read
+    from `unknown_stdev(..)` or `stdev_obs(..)` (possibly converted to the angular output unit) — the
+    regenerated site table; a site that multiplies anything else, or uses `kki` in another way, stops the
+    translator or this proof -/
+theorem gen_halfWidthSites :
+    StatsGen.halfWidthSites ≠ [] ∧
+    ∀ s ∈ StatsGen.halfWidthSites,
+      (s.1 = "adjusted_unknowns.h" ∧ s.2.2.1 = "unknown_stdev") ∨
+      (s.1 = "adjusted_observations.h" ∧ s.2.2.1 = "stdev_obs") := by
+  decide
+
+/-- `stdev_obs(i)` / `wcoef_res(i)` only read the vectors `sigma_L` / `vahkopr` that `vyrovnani_` fills with
+    the formulas `sigmaL` / `wcoefRes` -/
+theorem gen_accessorReads :
+    StatsGen.accessorReads = [("stdev_obs", "sigma_L"), ("wcoef_res", "vahkopr")] := rfl
+
 /-! ## degrees of freedom -/
 
-/-- as coded: observations − unknowns + defect -/
-theorem C09_dof (rows cols defect : Int) :
-    degreesOfFreedom rows cols defect = rows - cols + defect := rfl
+/- `C09_dof` (the reported number is the redundancy `m − rank A` = `m − n + dim ker A` = `Σ (1 − q_bb(i,i))` of
+   what the solver models return) is in `Props/C09Solvers.lean`; the coded expression
+   `A.rows() − A.cols() + defect()` is `gen_dof`. -/
 
 /-- with the solver's defect = unknowns − rank A (C01/C20 defect theorem, LS10) the reported
     number is the redundancy m − rank A -/
@@ -272,8 +293,10 @@ theorem C09_sigma_apr_scaling_m0 (act : SigmaAct) (sapr phi s : ℝ) (dof : ℤ)
   refine ⟨key, ?_⟩
   rw [key]; field_simp
 
-/-- every reported standard deviation, covariance and residual statistic is unchanged -/
-theorem C09_sigma_apr_scaling (m sapr s q qbb stdev : ℝ) (hs : 0 < s) (hsapr : sapr ≠ 0)
+/-- every reported standard deviation, covariance and residual statistic is unchanged — at the level of
+    the formulas, with the scaling of their inputs written into the arguments; `C09_sigma_apr_scaling`
+    (`Props/C09Solvers.lean`) derives that scaling from LS9 for the solver answers -/
+theorem C09_sigma_apr_scaling_formulas (m sapr s q qbb stdev : ℝ) (hs : 0 < s) (hsapr : sapr ≠ 0)
     (hst : stdev ≠ 0) :
     unknownStdev (s * m) (q / s ^ 2) = unknownStdev m q ∧
     covEntry (s * m) (q / s ^ 2) = covEntry m q ∧
